@@ -95,6 +95,7 @@ def run(R):
     r6(R)
     r8(R)
     r9(R)
+    r10(R)
     bodies = {}
     for nm in INGEST:
         b = R.body("C09-R1", "CSPARQLWindow::%s" % nm, crate="kolibrie")
@@ -565,3 +566,40 @@ def r9(R):
             and any("f64" in (sc.local_ty(F.op_place(o)["l"]) if F.op_place(o) else str(o.get("ty"))) for o in (rv["a"], rv["b"]))]
     R.ob("C09-R9", "loop-exit", "the loop of scope() compares integers (float comparisons in its loops at lines %s)" % fcmp, not fcmp, where=sc.where(fcmp[0] if fcmp else None),
          detail=None if not fcmp else "`o_i += slide` in f64 does not change o_i once the spacing of f64 exceeds the slide: the loop never ends")
+
+
+def r10(R):
+    """after an event the open windows are exactly those that contain it"""
+    prog = R.prog
+    R.rule("C09-R10", "closed windows leave: what the ingest methods store back into `active_windows` is the collection their membership filter "
+                      "produced (`open <= t < close`) and nothing else - it is not passed through a function that also sees the previous map. A window "
+                      "that is kept after it closed stays a candidate of the max-close selection and is reported later, after a window with a "
+                      "larger close: the reported intervals are no longer non-decreasing")
+    n = 0
+    for nm in INGEST:
+        b = R.body("C09-R10", "CSPARQLWindow::%s" % nm, crate="kolibrie")
+        if b is None:
+            continue
+        R.saw(b)
+        for bb, i, pl, rv, st in b.assigns():
+            if not (pl["p"] and pl["p"][-1].get("n") == "active_windows" and pl["p"][-1].get("adt") == CSW) or rv["rv"] != "use":
+                continue
+            n += 1
+            o = b.origin(rv["op"], stop_named=False)
+            src = o[1].name() if o[0] == "call" else o[0]
+            ok = o[0] == "call" and o[1].name() in ("collect", "from_iter")
+            sees_old = False
+            if o[0] == "call" and not ok:
+                for a in o[1].args:
+                    oo = b.origin(a, stop_named=False) if F.op_place(a) else None
+                    if oo and oo[0] == "place" and any(e["k"] == "field" and e.get("n") == "active_windows" for e in oo[1]["p"]):
+                        sees_old = True
+                    pa = F.op_place(a)
+                    if pa is not None:
+                        for d in b.defs().get(pa["l"], []):
+                            if d[0] == "assign" and d[3]["rv"] == "ref" and any(e["k"] == "field" and e.get("n") == "active_windows" for e in d[3]["pl"]["p"]):
+                                sees_old = True
+            R.ob("C09-R10", "replaced:%s:%d" % (nm, n), "%s replaces the open windows by the filtered collection itself (the stored value comes from `%s`%s)"
+                 % (nm, src, ", which also receives the previous map" if sees_old else ""), ok, where=b.where(st.get("ln")),
+                 detail=None if ok else "width 4, slide 2, a@1 b@7 c@8 d@9: [0,2)={a} is reported at t=9, after [4,8) was reported at t=8")
+    R.floor("C09-R10", "replacements of the open windows in the ingest methods", n, 2)
